@@ -79,6 +79,23 @@ func opName(op *Op) string {
 var kindOrder = []string{"table:adv", "sort:adv", "columns:adv", "upsert:adv", "paging:adv", "filter:unparsed", "filter:edge-quote", "filter:lenient", "filter:hostile-value",
 	"body:malformed", "body:adv-key", "body:adv-value", "body:adv-shape", "task:adv", "table:lenient", "symbols:unresolved", "symbols:adv"}
 
+// kindOrderRows is the order used for failures of the state and rows layers,
+// where no statement text narrows the choice: what selects or changes rows is
+// first of all the filter and the payload.
+var kindOrderRows = []string{"filter:unparsed", "filter:edge-quote", "filter:lenient", "body:malformed", "body:adv-key", "body:adv-value", "body:adv-shape", "columns:adv", "upsert:adv",
+	"table:adv", "task:adv", "filter:hostile-value", "sort:adv", "paging:adv", "table:lenient", "symbols:unresolved", "symbols:adv"}
+
+func sigKindsRows(kinds []string) string {
+	for _, want := range kindOrderRows {
+		for _, k := range kinds {
+			if k == want {
+				return k
+			}
+		}
+	}
+	return sigKinds(kinds)
+}
+
 // sigKinds renders the parameter kind of a signature; addressing one of the
 // other tables by its plain name is a documented request and is left out.
 func sigKinds(kinds []string) string {
@@ -189,7 +206,14 @@ func culprits(kinds []string, texts map[string][]string, sql string) []string {
 			base = k[:i]
 		}
 		for _, t := range texts[base] {
-			if strings.Contains(sql, t) {
+			// an occurrence as a properly quoted identifier or literal is how
+			// a careful builder writes the parameter; only other occurrences
+			// point at it
+			rest := strings.ReplaceAll(sql, `"`+strings.ReplaceAll(t, `"`, `""`)+`"`, "")
+			if base == "filter" || base == "body" || base == "symbols" {
+				rest = strings.ReplaceAll(rest, "'"+strings.ReplaceAll(t, "'", "''")+"'", "")
+			}
+			if strings.Contains(rest, t) {
 				out = append(out, k)
 				break
 			}
@@ -271,7 +295,7 @@ func runOp(fx *fix, d *dsnFix, op *Op, before dbState) (*opResult, dbState) {
 	status := fmt.Sprint(resp.Status)
 	if resp.Panic != nil {
 		status = "panic"
-		res.label("%s handler-panic %s", opName(op), srvfix.PanicSite(resp.Stack))
+		res.label("%s handler-panic %s", opName(op), tablesFrame(resp.Stack))
 	}
 	describe := func() string {
 		var b strings.Builder
@@ -414,7 +438,23 @@ func failureSig(op *Op, kinds []string, layerWhat string) string {
 	if strings.Count(layerWhat, " | ") >= 3 {
 		return layerWhat
 	}
-	return fmt.Sprintf("%s | %s | %s", opName(op), sigKinds(kinds), layerWhat)
+	return fmt.Sprintf("%s | %s | %s", opName(op), sigKindsRows(kinds), layerWhat)
+}
+
+// tablesFrame names the first frame of the table handlers in a panic stack
+// (the router re-panics, so the top frames are its own).
+func tablesFrame(stack string) string {
+	for _, l := range strings.Split(stack, "\n") {
+		l = strings.TrimSpace(l)
+		if i := strings.Index(l, "/internal/server/tables/"); i >= 0 && strings.Contains(l, ".go:") {
+			l = l[i+len("/internal/server/"):]
+			if j := strings.IndexByte(l, ' '); j > 0 {
+				l = l[:j]
+			}
+			return l
+		}
+	}
+	return srvfix.PanicSite(stack)
 }
 
 func keysOf(m map[string]bool) []string {
@@ -528,7 +568,44 @@ func respWithin(resp, table []Row, cols []string) bool {
 			ok := true
 			for _, c := range cols {
 				a, has := resp[i][c]
-				if !has || !t[c].matches(a) {
+				// a stored cell of another storage class (a REAL or BLOB left
+				// in the column by an earlier undocumented value) has no
+				// documented rendering: any value is accepted for it
+				if !has || !(t[c].matches(a) || t[c].K == 'f' || t[c].K == 'b') {
+					ok = false
+					break
+				}
+			}
+			if ok {
+				used[j] = true
+				if rec(i + 1) {
+					return true
+				}
+				used[j] = false
+			}
+		}
+		return false
+	}
+	return rec(0)
+}
+
+// covers: every row of must has a distinct partner in resp (same rule for
+// cells of an undocumented storage class as respWithin).
+func covers(must, resp []Row, cols []string) bool {
+	used := make([]bool, len(resp))
+	var rec func(i int) bool
+	rec = func(i int) bool {
+		if i == len(must) {
+			return true
+		}
+		for j, a := range resp {
+			if used[j] {
+				continue
+			}
+			ok := true
+			for _, c := range cols {
+				v, has := a[c]
+				if !has || !(must[i][c].matches(v) || must[i][c].K == 'f' || must[i][c].K == 'b') {
 					ok = false
 					break
 				}
@@ -762,7 +839,7 @@ func judgeRead(res *opResult, op *Op, p *opParse, before dbState, resp *srvfix.R
 			// an undocumented sort text that the server accepted may carry its
 			// own LIMIT or expression; the trace layer judged what it touched
 		} else if !paged {
-			if !subMultiset(must, rows, proj) {
+			if !covers(must, rows, proj) {
 				res.fail = &vkit.Failure{Sig: "rows | rows!=model", Observed: describe(), Expected: "rows ⊇ " + renderRows(must, proj)}
 				return
 			}
